@@ -5,6 +5,10 @@ import Enc.Lemmas.ThriftPrim
 import Enc.Lemmas.ThriftDecode
 import Enc.Lemmas.ThriftRoundTrip
 import Enc.Lemmas.ThriftUnionWitness
+import Enc.Lemmas.ThriftUnionZm
+import Enc.Lemmas.ThriftEmbed
+import Enc.Lemmas.ThriftEmbedShape
+import Enc.Lemmas.ThriftEmbedSlices
 /-!
 # C04 — thrift: Unmarshal(Marshal(v)) == v for binary and compact protocols
 Property theorems only.
@@ -247,5 +251,210 @@ theorem union_member_table (fs : Fields) (vs : Vals) (k : Nat) (tag : String) (t
 /-- non-vacuity (tags need evaluation: the full hypothesis sets are `#guard`ed in Lemmas/ThriftUnionWitness.lean): the witness
 union `V = struct { A bool (1); C string (3); F any (union); B int64 (9) }` has its union field at position 2 -/
 example : Lemmas.ThriftUnion.Witness.VF.length = 4 := by decide
+
+/-! ## embedded structs (model: Enc/Model/ThriftEmbed.lean; proofs and `#guard` witnesses on the shapes of
+harness/thriftemb.go: Enc/Lemmas/ThriftEmbed.lean)
+
+`forEachStructField` flattens embedded (anonymous) struct fields, by value and by pointer; every promoted field carries an
+index path. `encodeE` walks the paths as `structEncoder.encode` does (a nil embedded pointer on the way: the field is
+skipped), `decodeE` as `structDecoder.decode` does (a nil embedded pointer on the way is allocated). -/
+
+/-- **Embedding is transparent on the wire**: for every descriptor with embedded structs (any depth, value or pointer
+embedding), every value and every protocol, the encoder writes exactly what the plain struct encoder (`encode`, which knows
+nothing about embedding) writes for the FLAT struct type `flatFields fs` on the values gathered along the index paths —
+provided no required field sits behind a nil embedded pointer (`Transparent`, a Boolean of the value). -/
+theorem embedded_eq_flat (p : Proto) (fs : Fields) (vs : Vals) (h : Transparent fs vs = true) :
+    encodeE p (.struct fs) (.struct vs) = encode p (.struct (flatFields fs)) (.struct (flatVals fs vs)) :=
+  Lemmas.ThriftEmbed.embedded_eq_flat p fs vs h
+
+/-- the field table (ids, order, required / enum flags, types) of a struct with embedded fields is the field table of the
+flat struct; entry k is reached by the index path of the k-th flattened field instead of the position k -/
+theorem embedded_field_table (fs : Fields) :
+    fieldDescs (flatFields fs) = Lemmas.ThriftEmbed.descsFrom (fieldDescsE fs) 0 :=
+  Lemmas.ThriftEmbed.fieldDescs_flat fs
+
+/-- the paths emitted for one member of a struct do not depend on the members that follow, and all start with
+`prefix ++ [i]` (the clipping `fieldIndex[:len:len]` read as: paths are immutable values) -/
+theorem index_paths_independent (name tag : String) (emb : Bool) (t : Ty) (rest : Fields) (idx : List Nat) (i : Nat) :
+    flatten (.cons name tag emb t rest) idx i = flatten (.cons name tag emb t .nil) idx i ++ flatten rest idx (i + 1) ∧
+    ∀ ff ∈ flatten (.cons name tag emb t .nil) idx i, ∃ r, ff.index = idx ++ i :: r :=
+  Lemmas.ThriftEmbed.index_paths_independent name tag emb t rest idx i
+
+/-- the defect the clipping repairs, in the model of `append` with backing arrays and capacities: three levels down two
+siblings share one path without it, and have their own paths with it -/
+theorem unclipped_index_paths_alias (n1 t1 n2 t2 : String) (ty1 ty2 : Ty)
+    (e1 : isExported n1 = true) (e2 : isExported n2 = true)
+    (h1 : (tagOf t1).isSome = true) (h2 : (tagOf t2).isSome = true) :
+    flattenAliased (Lemmas.ThriftEmbed.deep3 n1 t1 n2 t2 ty1 ty2) = [(n1, [0, 0, 0, 1]), (n2, [0, 0, 0, 1])] ∧
+    flattenClipped (Lemmas.ThriftEmbed.deep3 n1 t1 n2 t2 ty1 ty2) = [(n1, [0, 0, 0, 0]), (n2, [0, 0, 0, 1])] :=
+  Lemmas.ThriftEmbed.aliased_siblings_share_path n1 t1 n2 t2 ty1 ty2 e1 e2 h1 h2
+
+/-- where embedding is NOT transparent: a required field behind a nil embedded pointer is not written (only the stop
+field is), although the flat struct writes it — and the decoder rejects those bytes (missing required field) -/
+theorem required_behind_nil_embedded_pointer_skipped (p : Proto) (n t : String) (id : Int) (he : isExported n = true)
+    (ht : tagOf t = some (id, true, false)) :
+    let fs := Fields.cons "R" "" true (.ptr (.struct (.cons n t false (.int .i32) .nil))) .nil
+    encodeE p (.struct fs) (.struct (.cons .nil .nil)) = wStopField p ∧ Transparent fs (.cons .nil .nil) = false :=
+  Lemmas.ThriftEmbed.required_behind_nil_skipped p n t id he ht
+
+/-- **Embedding is transparent for the decoder**: decoding into the flat struct type, started on the flat value of the
+target (`flatVals`: the promoted fields gathered along their index paths, zero values behind nil embedded pointers), gives
+the flat value of what decoding into the struct with embedded fields gives (`mapS (flatVals fs)` maps the decoded struct,
+errors and the rest of the input are the same) — for every descriptor, every well-shaped target (`LenOK`: an embedded
+member holds a struct, a pointer to one, or nil; the zero value `Unmarshal` starts from is one,
+`embedded_zero_target_ok`), every input, protocol, strictness, depth and fuel, provided the embedded types on the way to a
+promoted field have exported names (`PathsExported`, a Boolean of the descriptor). The nil embedded pointers on the path of a
+field that arrives are allocated (`setPathA`), the others stay nil (witnesses in Lemmas/ThriftEmbedShape.lean). -/
+theorem embedded_decode_eq_flat (p : Proto) (strict : Bool) (d : Nat) (fs : Fields) (fuel : Nat) (b : Bytes) (vs : Vals)
+    (h : Lemmas.ThriftEmbed.LenOK fs vs = true) (hx : Lemmas.ThriftEmbed.PathsExported fs = true) :
+    decode p strict d fuel (.struct (flatFields fs)) b (.struct (flatVals fs vs)) =
+      Lemmas.ThriftEmbed.mapS (flatVals fs) (decodeE p strict d fuel (.struct fs) b (.struct vs)) :=
+  Lemmas.ThriftEmbed.embedded_decode_eq_flat p strict d fs fuel b vs h hx
+
+/-- where the decoder is NOT transparent: a promoted field behind a nil embedded pointer to a struct type with an unexported
+name cannot be stored (reflect `CanSet`; Go: "cannot set embedded field of unexported type") -/
+theorem unexported_embedded_pointer_blocked (nm n t : String) (ty : Ty) (rest : Fields) (vs : Vals)
+    (hn : isExported nm = false) :
+    blocked (.cons nm "" true (.ptr (.struct (.cons n t false ty .nil))) rest) (.cons .nil vs) [0, 0] = true :=
+  Lemmas.ThriftEmbed.unexported_embedded_pointer_blocked nm n t ty rest vs hn
+theorem embedded_zero_target_ok (fs : Fields) : Lemmas.ThriftEmbed.LenOK fs (zeroFields fs) = true :=
+  Lemmas.ThriftEmbed.lenOK_zeroFields fs
+
+/-- the decoder's index walk is a lens on the paths of a descriptor: what was written at one promoted field is read back
+there, and no other promoted field changes — the index paths of every descriptor are pairwise independent (neither is a
+prefix of the other) -/
+theorem embedded_paths_pairwise_independent (fs : Fields) : Lemmas.ThriftEmbed.PathsIndep (fieldDescsE fs) :=
+  Lemmas.ThriftEmbed.pathsIndep_flatten fs
+
+/-- **index paths in the model with backing arrays and capacities**: with the clipping `fieldIndex[:len:len]` (the code as
+written) the path of every promoted field, read once the whole type has been walked, is the path it was given, for every
+descriptor: no later `append` for a sibling writes into its array (without the clipping: `unclipped_index_paths_alias`) -/
+theorem clipped_index_paths_never_alias (fs : Fields) :
+    flattenClipped fs = (flatten fs [] 0).map (fun ff => (ff.name, ff.index)) :=
+  Lemmas.ThriftEmbed.flattenClipped_eq fs
+
+/-- **the index paths address the right values**: the flat values gathered along the index paths are the values read off
+the nested value by plain recursion on the type (`gatherF`: members in order, an embedded struct contributes its own
+gathered values through at most one pointer, a nil embedded pointer the zero values of its promoted fields) -/
+theorem embedded_flat_values_are_the_leaves (fs : Fields) (vs : Vals) (h : Lemmas.ThriftEmbed.LenOK fs vs = true) :
+    (flatVals fs vs).toList = Lemmas.ThriftEmbed.gatherF fs vs :=
+  Lemmas.ThriftEmbed.flatVals_eq_gather fs vs h
+
+/-- `unflatVals` (scatter along the index paths, allocating embedded pointers as the decoder does) is a right inverse of
+`flatVals` (gather), on top of any well-shaped target -/
+theorem embedded_flat_unflat (fs : Fields) (vs ws : Vals) (h : Lemmas.ThriftEmbed.LenOK fs vs = true) :
+    Lemmas.ThriftEmbed.LenOK fs (unflatVals fs vs ws) = true ∧
+    ∀ j ff, (fieldDescsE fs)[j]? = some ff → Vals.get (flatVals fs (unflatVals fs vs ws)) j = Vals.get ws j :=
+  Lemmas.ThriftEmbed.flat_unflat fs vs ws h
+
+/-! ## union: zero member, general characterisation (T2bZm) -/
+/-! Proofs: Enc/Lemmas/ThriftUnionZm.lean. Vocabulary (all decidable, defined there independently of `zmScan`):
+`isMemberAt fs k` — the field at position `k` carries an id; `anyMemberNonZero fs vs` — some member holds a non-zero value;
+`sameTypeMembers ut fs pos` — positions of the members of Go type `ut`; `otherOfType ut k fs 0` — a member at a position other
+than `k` has Go type `ut`; `MembersDistinct fs` — the members have pairwise different Go types; `noRequired fs`.
+Tags are abstract in the examples (`String.splitOn` does not reduce in the kernel); the concrete tags are `#guard`ed in the
+Lemmas file. -/
+
+open Lemmas.ThriftUnion in
+/-- the model's Go type identity is equality of type descriptors -/
+theorem union_tyEq_iff_eq (a b : Ty) : tyEq a b = true ↔ a = b := Lemmas.ThriftUnion.tyEq_iff_eq a b
+
+open Lemmas.ThriftSkip Lemmas.ThriftUnion in
+/-- **the loop of `zeroMember`, characterised**: it gives up (`none`, Go `-1`) exactly when some member holds a non-zero value;
+when every member is zero it answers the positions of the members whose Go type is `ut` (in increasing order). -/
+theorem union_zmScan_characterisation (ut : Ty) (fs : Fields) (vs : Vals) (pos : Nat) (hlen : fs.length ≤ vs.length) :
+    (zmScan ut fs vs pos = none ↔
+      ∃ i tag t x, fieldAt fs vs i = some (tag, t, x) ∧ (memberId tag).isSome = true ∧ isZeroAt t x = false) ∧
+    ((∀ i tag t x, fieldAt fs vs i = some (tag, t, x) → (memberId tag).isSome = true → isZeroAt t x = true) →
+      zmScan ut fs vs pos = some (sameTypeMembers ut fs pos)) :=
+  Lemmas.ThriftUnion.zmScan_characterisation ut fs vs pos hlen
+
+open Lemmas.ThriftSkip Lemmas.ThriftUnion in
+/-- **members of pairwise different Go types: the designated zero member is found.** -/
+theorem union_zero_member_found_of_distinct (fs : Fields) (vs : Vals) (u : Nat) (k : Int) (ut : Ty)
+    (hu : unionPos fs 0 = some u) (hF : Vals.get vs u = .ptr (.int k)) (hk : 0 ≤ k)
+    (ht : tyAt fs k.toNat = some ut) (hm : isMemberAt fs k.toNat = true)
+    (hz : anyMemberNonZero fs vs = false) (hlen : fs.length ≤ vs.length) (hd : MembersDistinct fs = true) :
+    zeroMember fs vs = some k.toNat :=
+  Lemmas.ThriftUnion.zeroMember_of_distinct fs vs u k ut hu hF hk ht hm hz hlen hd
+
+open Lemmas.ThriftSkip Lemmas.ThriftUnion in
+/-- **union_zero_member_written, without the scan hypothesis**: members of pairwise different Go types, every member zero,
+the union field holding the address of member `k` ⇒ field `k` is emitted (anything but a nil pointer). -/
+theorem union_zero_member_written_of_distinct (fs : Fields) (vs : Vals) (u k : Nat) (t : Ty) (tag : String) (x : Val)
+    (id : Int) (rq en : Bool) (hu : unionPos fs 0 = some u) (hF : Vals.get vs u = .ptr (.int (k : Nat)))
+    (ht : tyAt fs k = some t) (hm : isMemberAt fs k = true) (hz : anyMemberNonZero fs vs = false)
+    (hlen : fs.length ≤ vs.length) (hd : MembersDistinct fs = true)
+    (hp : parseTag tag = some (id, rq, en)) (hn : isNilPtr t x = false) :
+    emittedU (zeroMember fs vs) k tag t x = some (id, en) :=
+  Lemmas.ThriftUnion.emittedU_of_distinct fs vs u k t tag x id rq en hu hF ht hm hz hlen hd hp hn
+
+open Lemmas.ThriftSkip Lemmas.ThriftUnion in
+/-- non-vacuity: `struct { A bool (1); C string (3); F any (union) }` with `C = ""` designated -/
+example (ta tc tf : String) (ha : parseTag ta = some (1, false, false)) (hc : parseTag tc = some (3, false, false))
+    (hf : parseTag tf = none) (hfu : isUnionTag tf = true) :
+    zeroMember (distFields ta tc tf) distVals = some 1 ∧
+      emittedU (zeroMember (distFields ta tc tf) distVals) 1 tc .str (.str []) = some (3, false) := by
+  obtain ⟨hu, hF, ht, hm, hz, hlen, hd⟩ := distinct_example_hyps ta tc tf ha hc hf hfu
+  exact ⟨by simpa using union_zero_member_found_of_distinct _ _ 2 1 .str hu hF (by decide) ht hm hz hlen hd,
+    union_zero_member_written_of_distinct _ _ 2 1 .str tc (.str []) 3 false false hu hF ht hm hz hlen hd hc rfl⟩
+
+open Lemmas.ThriftSkip Lemmas.ThriftUnion in
+/-- **exactness**: the union field designates member `k` (of Go type `ut`), every member is zero. `zeroMember` finds `k` IF AND
+ONLY IF no other member has Go type `ut`; it answers −1 IF AND ONLY IF another member has it — the recorded finding
+`thriftUnionZeroAmbiguous` is exactly the excluded case. -/
+theorem union_zero_member_ambiguous_iff (fs : Fields) (vs : Vals) (u : Nat) (k : Int) (ut : Ty)
+    (hu : unionPos fs 0 = some u) (hF : Vals.get vs u = .ptr (.int k)) (hk : 0 ≤ k)
+    (ht : tyAt fs k.toNat = some ut) (hm : isMemberAt fs k.toNat = true)
+    (hz : anyMemberNonZero fs vs = false) (hlen : fs.length ≤ vs.length) :
+    (zeroMember fs vs = some k.toNat ↔ otherOfType ut k.toNat fs 0 = false) ∧
+    (zeroMember fs vs = none ↔ otherOfType ut k.toNat fs 0 = true) :=
+  ⟨Lemmas.ThriftUnion.zeroMember_ambiguous_iff fs vs u k ut hu hF hk ht hm hz hlen,
+   Lemmas.ThriftUnion.zeroMember_none_iff fs vs u k ut hu hF hk ht hm hz hlen⟩
+
+open Lemmas.ThriftSkip Lemmas.ThriftUnion in
+/-- non-vacuity, both sides: `struct { A int32 (1); B int32 (2); C string (3); F any (union) }` is not `MembersDistinct`, yet
+`C = ""` designated is found; `struct { A int32 (1); B int32 (2); F any (union) }` with `A = 0` designated: −1 -/
+example (ta tb tc tf : String) (ha : parseTag ta = some (1, false, false)) (hb : parseTag tb = some (2, false, false))
+    (hc : parseTag tc = some (3, false, false)) (hf : parseTag tf = none) (hfu : isUnionTag tf = true) :
+    MembersDistinct (ambFields3 ta tb tc tf) = false ∧ zeroMember (ambFields3 ta tb tc tf) ambVals3 = some 2 :=
+  Lemmas.ThriftUnion.ambiguous_iff_example ta tb tc tf ha hb hc hf hfu
+open Lemmas.ThriftSkip Lemmas.ThriftUnion in
+example (ta tb tf : String) (ha : parseTag ta = some (1, false, false)) (hb : parseTag tb = some (2, false, false))
+    (hf : parseTag tf = none) (hfu : isUnionTag tf = true) : zeroMember (ambFields ta tb tf) ambVals = none := by
+  obtain ⟨hu, hF, ht, hm, hz, hlen, ho, _⟩ := ambiguous_example_hyps ta tb tf ha hb hf hfu
+  exact (union_zero_member_ambiguous_iff _ _ 2 0 (.int .i32) hu hF (by decide) ht hm hz hlen).2.2 ho
+
+open Lemmas.ThriftSkip Lemmas.ThriftUnion in
+/-- **the finding in general**: in the excluded case (another member shares the designated member's Go type; no `required`
+member) `Marshal` writes the empty struct — the stop byte only: the member that was set to zero is not on the wire. -/
+theorem union_ambiguous_nothing_written (p : Proto) (fs : Fields) (vs : Vals) (u k : Nat) (ut : Ty)
+    (hu : unionPos fs 0 = some u) (hF : Vals.get vs u = .ptr (.int (k : Nat)))
+    (ht : tyAt fs k = some ut) (hm : isMemberAt fs k = true)
+    (hz : anyMemberNonZero fs vs = false) (hlen : fs.length ≤ vs.length)
+    (ho : otherOfType ut k fs 0 = true) (hr : noRequired fs = true) :
+    zeroMember fs vs = none ∧ encodeU p (.struct fs) (.struct vs) = .ok (wStopField p) :=
+  Lemmas.ThriftUnion.union_ambiguous_nothing_written p fs vs u k ut hu hF ht hm hz hlen ho hr
+
+open Lemmas.ThriftSkip Lemmas.ThriftUnion in
+/-- **negative witness** (finding `thriftUnionZeroAmbiguous`): `struct { A int32 (1); B int32 (2); F any (union) }`,
+`A = B = 0`, `F = &A`: the union field is found, another member has `A`'s type, `zeroMember` answers −1 and every protocol
+writes just the stop byte. -/
+theorem union_zero_member_ambiguous_witness (ta tb tf : String)
+    (ha : parseTag ta = some (1, false, false)) (hb : parseTag tb = some (2, false, false))
+    (hf : parseTag tf = none) (hfu : isUnionTag tf = true) (p : Proto) :
+    unionPos (ambFields ta tb tf) 0 = some 2 ∧
+    otherOfType (.int .i32) 0 (ambFields ta tb tf) 0 = true ∧
+    zeroMember (ambFields ta tb tf) ambVals = none ∧
+    encodeU p (.struct (ambFields ta tb tf)) (.struct ambVals) = .ok (wStopField p) :=
+  Lemmas.ThriftUnion.zeroMember_ambiguous_witness ta tb tf ha hb hf hfu p
+
+open Lemmas.ThriftSkip Lemmas.ThriftUnion in
+/-- non-vacuity of `union_ambiguous_nothing_written` on the same witness (the general theorem gives the witness) -/
+example (ta tb tf : String) (ha : parseTag ta = some (1, false, false)) (hb : parseTag tb = some (2, false, false))
+    (hf : parseTag tf = none) (hfu : isUnionTag tf = true) :
+    encodeU .compact (.struct (ambFields ta tb tf)) (.struct ambVals) = .ok [0] := by
+  obtain ⟨hu, hF, ht, hm, hz, hlen, ho, hr⟩ := ambiguous_example_hyps ta tb tf ha hb hf hfu
+  exact (union_ambiguous_nothing_written .compact _ _ 2 0 (.int .i32) hu hF ht hm hz hlen ho hr).2
 
 end Enc.Props.C04
